@@ -157,7 +157,7 @@ def run_for_property(prop: str) -> int:
             from .registry import PROPS as _P
             my_rules = set(_P[prop]["rules"])
             with ProcessPoolExecutor(max_workers=16) as ex:
-                for r in ex.map(_seeded.run_refactor, [(n, rdir) for n in rnames]):
+                for r in ex.map(_seeded.run_refactor, [(n, rdir, [prop]) for n in rnames]):
                     if r["status"] != "ran":
                         continue
                     mine = [k for k, ps in r["fired"].items() if prop in ps]
